@@ -397,14 +397,23 @@ class NumberMagic:
         return "1.7alpha"
 
 
+_uniq_marker_rx = re.compile("(\x7fUNIQ-[a-z0-9]+-\\d+-[a-f0-9]+-QINU\x7f)")
+
+
+def _skip_markers(fun, input_string):
+    """apply fun to the text around the markers of protected regions (nowiki, math, ...)"""
+    parts = _uniq_marker_rx.split(input_string)
+    return "".join(p if i % 2 else fun(p) for i, p in enumerate(parts))
+
+
 class StringMagic:
     @single_arg
     def LC(self, input_string):
-        return input_string.lower()
+        return _skip_markers(str.lower, input_string)
 
     @single_arg
     def UC(self, input_string):
-        return input_string.upper()
+        return _skip_markers(str.upper, input_string)
 
     @single_arg
     def LCFIRST(self, input_string):
